@@ -619,6 +619,8 @@ def rule_decimal_context_pinned(ctx: Ctx, rep: Report) -> None:
         for q, fi in sorted(ctx.prog.functions.items()):
             if fi.module is not mi:
                 continue
+            if fi.node.name.startswith("_") and not fi.node.name.startswith("__") and not ctx.callers(q):
+                continue  # a private helper nothing calls answers nobody
             dec = set(consts)
             a = fi.node.args
             for p_ in a.posonlyargs + a.args + a.kwonlyargs:
